@@ -177,7 +177,9 @@ def run(ctx: common.Ctx):
     quick = ctx.tier == "quick"
     fns = ["sort", "argsort", "unique_all", "unique_counts", "unique_inverse", "unique_values", "searchsorted", "nonzero", "where"]
     weight = {"searchsorted": 4, "sort": 2, "argsort": 2, "where": 2}
-    jobs = [(fn, d, ctx.seed * 977 + k, 0) for fn in fns for d in NUM for k in range((4 if quick else 60) * weight.get(fn, 1))]
+    import zlib
+    jobs = [(fn, d, zlib.crc32(f"{fn}/{d}/{ctx.seed}/{k}".encode()), 0) for fn in fns for d in NUM
+            for k in range((4 if quick else 60) * weight.get(fn, 1))]
     if not quick:
         jobs += [(fn, d, 5, 70000) for fn in ("sort", "argsort", "unique_all") for d in ("int8", "uint16", "float32", "int64")]
     else:
